@@ -206,6 +206,24 @@ def run(ctx):
     ctx.check("C08.E", "retarget:no-op-appended-iff-flag", appended and init_false, "the trailing no-op is not appended exactly when a jump targeted the position just past the end", repo.loc(m, tp))
     # the retargeting must happen after all instructions were rewritten (second loop after the first) and the result stored
     stored = any(isinstance(st, ast.Assign) and A.norm(st.targets[0]) == "self._subroutine.instructions" and A.norm(st.value) == "new_commands" for st in tp.body)
+    # the index map describes new_commands as the rewrite loop built it: afterwards the list may only grow at its end (the no-op)
+    edits = []
+    for st in A.body_nodes(tp):
+        inside_rw = any(st is x for x in ast.walk(rw))
+        if isinstance(st, ast.Assign) and any(A.norm(t_) == "new_commands" for t_ in st.targets):
+            if not (isinstance(st.value, ast.List) and not st.value.elts and st.lineno < rw.lineno):
+                edits.append(src(st)[:80])
+        elif isinstance(st, ast.AugAssign) and A.norm(st.target) == "new_commands":
+            if not (isinstance(st.op, ast.Add) and (inside_rw or st.lineno > rl.lineno)):
+                edits.append(src(st)[:80])
+        elif isinstance(st, (ast.Assign, ast.Delete)) and any(isinstance(t_, ast.Subscript) and A.norm(t_.value) == "new_commands" for t_ in (st.targets)):
+            edits.append(src(st)[:80])
+        elif isinstance(st, ast.Call) and isinstance(st.func, ast.Attribute) and A.norm(st.func.value) == "new_commands" and st.func.attr in ("remove", "pop", "insert", "sort", "reverse", "clear", "extend", "append"):
+            if not (st.func.attr in ("append", "extend") and (inside_rw or st.lineno > rl.lineno)):
+                edits.append(src(st)[:80])
+    ctx.check("C08.I", "rewrite-result:only-appended-to", not edits,
+              f"the rewritten command list is changed other than by appending expansions in the rewrite loop ({'; '.join(edits)}): the old->new index map was recorded against the list "
+              "as the loop built it, so removing or inserting commands afterwards shifts every later jump target", repo.loc(m, tp), sample={"other_edits": edits})
     ctx.check("C08.E", "transpile:result-stored", stored and tp.body.index(rl) > tp.body.index(rw), "the rewritten command list is not stored back (or targets are patched before the rewrite finished)", repo.loc(m, tp), trivial=True)
     # REIDS: same past-the-end handling
     ok_r = False
@@ -290,6 +308,9 @@ def run(ctx):
     grv = nvt.methods.get("get_reg_value")
     ok = ok and grv is not None and any(A.norm(r.value) == f"self._register_values[{A.param_names(grv)[1]}]" for r in A.returns(grv))
     ctx.check("C08.V", "two-qubit-dispatch:reads-tracked-values", ok, "the two-qubit dispatch does not read the tracked register values (anchor changed)", repo.loc(m, h2) if h2 else "", trivial=True)
+    # 0 is an ordinary id / value / address: nothing int-valued may be tested by truthiness (nqsa/truth.py)
+    from .. import truth
+    truth.check(ctx, "C08.Z", ['netqasm.sdk.transpile'])
 
 
 def check_scratch(ctx, nvt, rw):
@@ -345,6 +366,9 @@ def check_scratch(ctx, nvt, rw):
 TP = "netqasm/sdk/transpile.py"
 CO = "netqasm/lang/instr/core.py"
 SEEDS = [
+    dict(id="c08-strip-zero-rotations-after-map", file=TP, expect="C08.I", construct="only-appended-to",
+         old="        add_no_op_at_end = False\n\n        for instr in new_commands:", new="        new_commands = [c for c in new_commands if not (isinstance(c, core.RotationInstruction) and c.angle_num == Immediate(0))]\n        add_no_op_at_end = False\n\n        for instr in new_commands:"),
+
     dict(id="c08-scratch-from-tracked-values", file=TP, expect="C08.U", construct="never-shrinks",
          old="            if reg not in self._used_registers:", new="            if reg not in self._register_values:"),
     dict(id="c08-used-registers-only-set-targets", file=TP, expect="C08.U", construct="every-register-operand-recorded",
